@@ -168,6 +168,17 @@ def work(item):
             for q in qs:
                 n += 1
                 nt += _compare(res, db, ref, q, 'gen', 'generated', text)
+            # a caller that modifies what it got back must not change what the registry says afterwards
+            for q in qs[:86]:
+                try:
+                    for part, props in db.info(q):
+                        props.clear()
+                        props['junk'] = 'x'
+                except Exception:
+                    pass
+            for q in qs[:86]:
+                n += 1
+                nt += _compare(res, db, ref, q, 'gen-after-mutation', 'generated', text)
         res['extra']['generated_files'] = files
         if idx == 0:
             res['samples'].append({'file_text': 'first generated shapes', 'example': list(itertools.islice(file_shapes(tier), 200, 203))})
@@ -210,7 +221,7 @@ def work(item):
 def replay(case):
     from stdnum import numdb
     res = Result()
-    if case['kind'] == 'gen':
+    if case['kind'].startswith('gen'):
         text = case['text']
     else:
         text = open(os.path.join(core.REPO, case['file']), encoding='utf-8').read()
@@ -219,5 +230,13 @@ def replay(case):
     except Exception as e:  # noqa: B902
         res.viol(ID, 'read-raises', 'stdnum.numdb', 'read', case, repr(e), 'parsed', excinfo='gen')
         return res['violations']
+    if case['kind'] == 'gen-after-mutation':
+        for q in queries(3):
+            try:
+                for part, props in db.info(q):
+                    props.clear()
+                    props['junk'] = 'x'
+            except Exception:
+                pass
     _compare(res, db, numdb_ref.parse(text), case['query'], case['kind'], case['file'], case.get('text'))
     return res['violations']
